@@ -69,12 +69,13 @@ def correspondence(ctx, violations, known_hits):
             if bad <= 5:
                 violations.append({"kind": "run-after-reset-differs-from-fresh-run", "case": cases[a], "fresh_case": cases[b],
                                    "after_reset": ri[a][0], "fresh": ri[b][0]})
+    real = dbgcommon.cli_cross(ctx, specs, violations, limit=(30 if ctx.tier == "quick" else 600))
     ctx.cleanup()
     return dbgcommon.coverage(r,
         "random histories of executing and mutating commands (move to registers/memory incl. the program's own code, below the origin, "
         "the stack area; goto; eval; step/continue; earlier resets) followed by reset, ended by (a) `registers; exit` — full machine "
         "snapshot incl. all 65,536 words, (b) `quit` — a complete run after the reset, compared with a fresh run of the same program, "
-        "(c) mutate-reset-reset-exit", profiles, fresh_run_comparisons=direct, fresh_run_mismatches=bad)
+        "(c) mutate-reset-reset-exit", profiles, fresh_run_comparisons=direct, fresh_run_mismatches=bad, real_binary_without_hooks=real)
 
 
 def replay(ctx, payload):
